@@ -2,6 +2,7 @@ package parser
 
 import (
 	"errors"
+	"strings"
 
 	"github.com/alecthomas/participle/v2"
 	"github.com/alecthomas/participle/v2/lexer"
@@ -40,6 +41,16 @@ var DefaultParserOptions = []participle.Option{
 	participle.UseLookahead(1),
 	participle.Elide("Whitespace", "EOL"),
 	participle.Unquote("String"),
+	// integer literals are base 10: without this, the conversion of an Int token
+	// (strconv.ParseInt with base 0) reads a leading 0 as an octal prefix
+	participle.Map(func(t lexer.Token) (lexer.Token, error) {
+		if v := strings.TrimLeft(t.Value, "0"); v != "" {
+			t.Value = v
+		} else {
+			t.Value = "0"
+		}
+		return t, nil
+	}, "Int"),
 }
 
 type Parser interface {
